@@ -183,12 +183,35 @@ class SchedLock:
     self.__exit__()
 
 
-def install(servicer, sched):
-  """Replaces the servicer's three lock tables by scheduler-visible locks."""
+class NoLock:
+  """Stands in for a harness-internal lock while the scheduler guarantees that
+  only one thread runs (a real lock held across a yield point would block a
+  thread the scheduler believes to be running)."""
+
+  def __enter__(self):
+    return self
+
+  def __exit__(self, *a):
+    return False
+
+
+def install(servicer, sched, datastore_lock=True):
+  """Replaces the servicer's three lock tables by scheduler-visible locks.
+
+  With datastore_lock the datastore's own lock becomes scheduler-visible too:
+  every acquisition is a yield point, so a datastore method that (wrongly)
+  releases and re-acquires its lock in the middle of one logical operation is
+  interleaved there. Returns True when the datastore lock was replaced.
+  """
   for attr in ('_owner_name_to_lock', '_study_name_to_lock', '_operation_lock'):
     if not hasattr(servicer, attr):
       raise AttributeError(f'VizierServicer has no {attr}: the lock tables moved')
     setattr(servicer, attr, collections.defaultdict(lambda: SchedLock(sched)))
+  inner = getattr(servicer.datastore, '_inner', servicer.datastore)
+  if datastore_lock and hasattr(inner, '_lock'):
+    inner._lock = SchedLock(sched)  # pylint: disable=protected-access
+    return True
+  return False
 
 
 def children(trace, prefix_len, max_preemptions):
